@@ -115,7 +115,7 @@ def run(tier, seed):
         chk.seen(("json", kind, json.dumps(d, sort_keys=True)[:200]))
     chk.notes.append({"malformed_structure_observations": dict(observed)})
     A.close(); B.close()
-    fw.env_invariance(chk, "reg")          # the same seeded cases under -O / -OO, warnings-as-errors, other TZ / locale, a private CA bundle
+    fw.env_invariance(chk, "auth", "reg")          # the same seeded cases under -O / -OO, warnings-as-errors, other TZ / locale, a private CA bundle
     return fw.finish(chk, ob, br, TRUSTED,
                      ["'well-formed response' = produced by the ceremony simulator (credential parses, client data is a JSON object, CBOR in the modelled subset, keys acceptable to `cryptography`, certificates parse)"],
                      RULE, "coqc -Q . PW Properties/C19.v; thorough: coqchk -o")
